@@ -286,7 +286,9 @@ impl Hashable for Bool {
 
 impl SerializableType for Bool {
     fn write_to(&self, writer: &mut [u8], cursor: usize) -> SerializationResult<usize> {
-        writer[cursor..].copy_from_slice(&[self.0 as u8]);
+        // Exactly one byte at `cursor` (the slice `cursor..` is only one byte long when the
+        // boolean happens to be the last thing in the buffer).
+        writer[cursor] = self.0 as u8;
         Ok(cursor + 1)
     }
 }
